@@ -79,6 +79,8 @@ pub struct Profile {
     pub nested_inline: bool,
     /// some forward diverts go to a labelled gather inside the target knot instead of its top (C01)
     pub label_diverts: bool,
+    /// globals holding divert targets (`VAR d = -> knot`, `~ d = -> other`, `-> d`)
+    pub var_diverts: bool,
     /// multi-line sequence blocks `{ stopping: - a - b }` (C01)
     pub block_sequences: bool,
     /// `{ var: - 0: ... - else: ... }` switch blocks (C01)
@@ -113,6 +115,7 @@ impl Default for Profile {
             no_tags_in_functions: false,
             nested_inline: true,
             label_diverts: false,
+            var_diverts: true,
             block_sequences: true,
             switch_blocks: true,
         }
@@ -178,6 +181,10 @@ pub struct Gen<'a> {
     lists: Vec<ListDecl>,
     externals: Vec<External>,
     labels: Vec<String>,
+    /// divert variables: (name, floor, possible targets). Every value the variable can take is a
+    /// parameterless plain knot (or stitch of one) with index >= floor, and `-> name` is only
+    /// written in knots with a lower index, so diverts through variables lead forward too
+    dvars: Vec<(String, usize, Vec<String>)>,
     /// labelled gathers: (knot index, full path)
     gather_labels: Vec<(usize, String)>,
     nlabel: usize,
@@ -194,6 +201,7 @@ pub fn gen_program(tape: &[u16], profile: &Profile) -> Program {
         lists: vec![],
         externals: vec![],
         labels: vec![],
+        dvars: vec![],
         gather_labels: vec![],
         nlabel: 0,
         ntag: 0,
@@ -353,6 +361,34 @@ impl<'a> Gen<'a> {
                 ty,
                 init,
             });
+        }
+
+        if self.p.var_diverts && self.knots.len() >= 2 && self.t.pick(3) == 2 {
+            let nd = 1 + self.t.pick(2);
+            for i in 0..nd {
+                let floor = 1 + self.t.pick(self.knots.len() - 1);
+                let mut targets = vec![];
+                for k in self.knots.iter().skip(floor) {
+                    // knots only: a divert through a variable to `knot.stitch` from outside the
+                    // knot does not count a visit of the knot (in the reference runtime either:
+                    // the pointer it makes has index -1), while the direct divert does; which of
+                    // the two is "right" the documentation does not say
+                    if k.kind == KnotKind::Plain && k.params.is_empty() {
+                        targets.push(k.name.clone());
+                    }
+                }
+                if targets.is_empty() {
+                    continue;
+                }
+                let name = self.pre(&format!("dv{i}"));
+                let init = targets[self.t.pick(targets.len())].clone();
+                self.globals.push(Global {
+                    name: name.clone(),
+                    ty: Ty::Divert,
+                    init: Expr::DivertTarget(init),
+                });
+                self.dvars.push((name, floor, targets));
+            }
         }
 
         // ---- bodies
@@ -563,6 +599,12 @@ impl<'a> Gen<'a> {
                 for s in &k.stitches {
                     v.push((format!("{}.{}", k.name, s), 0));
                 }
+            }
+        }
+        // a divert variable all of whose values lie ahead
+        for (name, floor, _) in &self.dvars {
+            if *floor >= from && sc.func.is_none() {
+                v.push((name.clone(), 0));
             }
         }
         v
@@ -1142,6 +1184,13 @@ impl<'a> Gen<'a> {
                 Stmt::Assign(name, e)
             }
             Ty::Float => Stmt::Assign(name, self.int_expr(sc, 1)),
+            Ty::Divert => {
+                let targets = self.dvars.iter().find(|d| d.0 == name).map(|d| d.2.clone()).unwrap_or_default();
+                if targets.is_empty() {
+                    return Stmt::Line(self.text_line(sc, false));
+                }
+                Stmt::Assign(name, Expr::DivertTarget(targets[self.t.pick(targets.len())].clone()))
+            }
             Ty::List => {
                 if self.t.chance(1, 2) {
                     let op = if self.t.chance(1, 2) { "+=" } else { "-=" };
